@@ -1212,7 +1212,7 @@ class IndexFlow:
             return
         if kind == 'raw' and st.B and name not in st.valid:
             self.problem('unchecked:%s' % accessor,
-                         '%s reaches the unchecked access %s(.., %s) on a path where boundscheck is on but %r was not tested with %s: '
+                         '%s reaches the unchecked access %s(.., %s) on a path where boundscheck is on but %r was not tested with %s (or an inline `0 <= x && x < n`): '
                          'an out-of-range index reads/writes outside the container instead of raising IndexError' % (self.fname, accessor, name, name, VALID_TEST))
         if v[0] == 'ix' and st.W and not self.normalised(v, st):
             why = {'raw': 'may still be negative (the length was not added)', 'adj_unk': 'had the length added although it may be non-negative'}.get(v[1], v[1])
